@@ -33,6 +33,8 @@ def sh(cmd, timeout=1800, cwd=None, env=None, input=None):
     e = dict(os.environ)
     e.setdefault('CARGO_NET_OFFLINE', 'true')
     e['RUST_BACKTRACE'] = '0'
+    e.setdefault('VERIF_REPO', REPO)
+    e.setdefault('VERIF_WORK', WORK)
     if env: e.update(env)
     try:
         p = subprocess.run(cmd, shell=isinstance(cmd, str), cwd=cwd, env=e, input=input,
@@ -63,7 +65,7 @@ def gen_tables(names):
     notes = []
     with Lock('gen'):
         for n in names:
-            out = os.path.join(COQ, 'theories', 'Gen', GEN_FILES[n])
+            out = os.path.join(COQ, 'theories', 'Gen', gen_registry()[n])
             rc, o = sh([sys.executable, os.path.join(VERIF, 'gen', n + '.py'), REPO, out], timeout=120, cwd=os.path.join(VERIF, 'gen'))
             if rc != 0:
                 notes.append('%s: translator failed: %s' % (n, o.strip()[-500:]))
@@ -71,32 +73,38 @@ def gen_tables(names):
                 notes += [l for l in o.splitlines() if l.strip()]
     return notes
 
-GEN_FILES = {
-    'optable': 'OpTable.v',
-    'opclass': 'OpClass.v',
-    'tcdispatch': 'TcDispatch.v',
-    'argcodec': 'ArgCodec.v',
-    'instrheader': 'InstrHeader.v',
-    'pixel': 'Pixel.v',
-    'regs': 'Regs.v',
-    'hashiter': 'HashIter.v',
-}
+def gen_registry():
+    """every gen/<name>.py declares its output with a line `# gen-out: File.v`"""
+    reg = {}
+    for f in sorted(glob.glob(os.path.join(VERIF, 'gen', '*.py'))):
+        m = re.search(r'^# gen-out:\s*(\w+\.v)\s*$', open(f).read(), re.M)
+        if m:
+            reg[os.path.basename(f)[:-3]] = m.group(1)
+    return reg
 
 def ensure_all_gen():
-    """every Gen file listed in _CoqProject must exist before coq_makefile/coqdep run"""
-    proj = open(os.path.join(COQ, '_CoqProject')).read()
-    needed = set(re.findall(r'theories/Gen/(\w+)\.v', proj))
-    rev = {v[:-2]: k for k, v in GEN_FILES.items()}
-    todo = [rev[n] for n in needed if n in rev]
-    return gen_tables(todo)
+    """every registered Gen file must exist before coqdep runs; (re)generate those that are missing"""
+    reg = gen_registry()
+    todo = [n for n, out in reg.items() if not os.path.exists(os.path.join(COQ, 'theories', 'Gen', out))]
+    return gen_tables(todo) if todo else []
 
 # ---------------------------------------------------------------------------------------------
 # Coq build
 
 def coq_makefile():
-    mk = os.path.join(COQ, 'Makefile')
+    """_CoqProject is derived from the directory listing (nobody edits it by hand)"""
+    files = sorted(os.path.relpath(f, COQ) for f in glob.glob(os.path.join(COQ, 'theories', '**', '*.v'), recursive=True))
+    text = '-Q theories TV\n' + ''.join(f + '\n' for f in files)
     proj = os.path.join(COQ, '_CoqProject')
-    if not os.path.exists(mk) or os.path.getmtime(mk) < os.path.getmtime(proj):
+    mk = os.path.join(COQ, 'Makefile')
+    changed = True
+    try:
+        changed = open(proj).read() != text
+    except OSError:
+        pass
+    if changed:
+        open(proj, 'w').write(text)
+    if changed or not os.path.exists(mk):
         rc, o = sh('coq_makefile -f _CoqProject -o Makefile', cwd=COQ, timeout=120)
         if rc != 0:
             raise RuntimeError('coq_makefile failed: ' + o)
@@ -105,6 +113,7 @@ def coq_build(targets, timeout=1500):
     """make the given .vo targets (paths relative to coq/). Returns (ok, log, first_error)"""
     with Lock('coq'):
         coq_makefile()
+        # .Makefile.d (coqdep output) is refreshed by make itself when files change
         rc, o = sh(['make', '-j16'] + targets, cwd=COQ, timeout=timeout)
     err = None
     if rc != 0:
